@@ -32,6 +32,78 @@ _CUT_RES = {}
 _WATOM = {}
 
 
+_SITE_CLASSES = {}
+
+
+def _site_classes(enz):
+    """letter classes of the forward and (if different) reverse recognition pattern, parsed from the enzyme's own
+    compiled search pattern (enz.compsite), with the cut offsets of OneCut._modify / _rev_modify"""
+    key = str(enz)
+    r = _SITE_CLASSES.get(key)
+    if r is None:
+        import re as real_re
+        from .re_model import flatten
+
+        inner = real_re.findall(r"\(\?=\(\?P<\w+>(.*?)\)\)", enz.compsite.pattern)
+        if not inner or len(inner) > 2:
+            raise Unsupported("unexpected search pattern for %s: %s" % (enz, enz.compsite.pattern))
+        r = []
+        for k, pat in enumerate(inner):
+            items, _ = flatten(pat)
+            if any(it[0] != "set" for it in items) or len(items) != enz.size:
+                raise Unsupported("unexpected site pattern for %s: %s" % (enz, pat))
+            r.append(([it[1] for it in items], enz.fst5 if k == 0 else -enz.fst3))
+        _SITE_CLASSES[key] = r
+    return r
+
+
+def _zand(a, b):
+    import z3
+
+    if a is True:
+        return b
+    if b is True:
+        return a
+    if a is False or b is False:
+        return False
+    return z3.And(a, b)
+
+
+def _zor(a, b):
+    import z3
+
+    if a is False:
+        return b
+    if b is False:
+        return a
+    if a is True or b is True:
+        return True
+    return z3.Or(a, b)
+
+
+def _znot(a):
+    import z3
+
+    if a is True:
+        return False
+    if a is False:
+        return True
+    return z3.Not(a)
+
+
+def _classes_at(letters, j, classes):
+    """raw z3 condition (or python bool): letters[j:j+len(classes)] lie in the given letter classes"""
+    from .re_model import in_cls
+
+    cond = True
+    for q, cls in enumerate(classes):
+        a = in_cls(letters[j + q], cls)
+        if a is False:
+            return False
+        cond = _zand(cond, a)
+    return cond
+
+
 def _word_at(letters, j, word):
     """raw z3 condition (or python bool): word occupies letters[j:j+len(word)]"""
     import z3
@@ -94,17 +166,13 @@ class EnzymeWrap(object):
         if not linear:
             raise Unsupported("circular symbolic digest")
         enz = self.real
-        site = enz.site
-        if any(c not in "ACGT" for c in site):
-            raise Unsupported("symbolic digest with an ambiguous recognition site (%s)" % enz)
         if not enz.cut_once():
             raise Unsupported("symbolic digest with a non single-cut enzyme (%s)" % enz)
-        import Bio.Seq
         import z3
         from ..core import tz, mkint
 
-        rsite = str(Bio.Seq.Seq(site).reverse_complement())
-        size = len(site)
+        words = _site_classes(enz)  # [(list of letter classes, delta)] forward first, as in enz.compsite
+        size = enz.size
         M = data.maxlen
         hint = data.hint
         letters = [supper_code(data.get(j), hint) for j in range(M)]
@@ -112,18 +180,24 @@ class EnzymeWrap(object):
         ck = (str(enz), lkey)
         tab = _CUT_TABS.get(ck)
         if tab is None:
-            words = [(site, enz.fst5)] + ([(rsite, -enz.fst3)] if rsite != site else [])
             tab = []  # (condition on letters, minimal length needed) per potential site
             for j in range(M - size + 1):
-                for word, delta in words:
+                taken = False  # re.finditer reports one alternative per position: the forward site wins
+                for classes, delta in words:
+                    cond = _classes_at(letters, j, classes)
+                    if cond is False:
+                        continue
+                    full = cond
+                    if taken is not False:
+                        full = _zand(cond, _znot(taken))
+                    taken = cond if taken is False else _zor(taken, cond)
                     w = (j + 1) + delta
                     c = w - enz.ovhg
                     if not (1 < w and 1 < c):
                         continue
-                    cond = _word_at(letters, j, word)
-                    if cond is False:
+                    if full is False:
                         continue
-                    tab.append((cond, max(w, c, j + size)))
+                    tab.append((full, max(w, c, j + size)))
             _CUT_TABS[ck] = (tab, letters)
         else:
             tab = tab[0]
@@ -150,7 +224,7 @@ class EnzymeWrap(object):
                     continue
                 g = cond
             else:
-                g = cond & (length.e >= need) if cond is not True else (length.e >= need)
+                g = z3.And(cond, length.e >= need) if cond is not True else (length.e >= need)
             if g is True:
                 conc += 1
             else:
